@@ -115,6 +115,10 @@ fn main() {
             docprops::render_proc(&ctx.args);
             return;
         }
+        "parse-plain" => {
+            bytesgen::parse_plain(&ctx.args);
+            return;
+        }
         "C10" => docprops::c10(&mut ctx),
         "C14" => docprops::c14(&mut ctx),
         "unicode-table" => {
